@@ -628,7 +628,7 @@ func c18Column(c *core.Ctx, r *core.Reporter) {
 }
 
 func init() {
-	register(&core.Rule{Name: "C18/OWN-path", Props: []string{"C18", "C07"}, Min: 1,
+	register(&core.Rule{Name: "C18/OWN-path", Props: []string{"C18", "C07", "C04"}, Min: 1,
 		Doc: "response path nodes are immutable once built: the only writes to a ResponsePath go to a node allocated by the writing function", Run: c18PathOwn})
 }
 
